@@ -9,12 +9,16 @@ open Desper Desper.Loop
   one per iteration; the scenario's time function raises `ClockExhausted` after the last one, so a
   run of the loop is a structural recursion over the frame list and no theorem needs a fuel for
   the loop itself (the fuel bounds the nesting depth of callbacks only; every statement holds for
-  every fuel).  `frameDts ext` are the deltas of the `World.process(dt)` calls of a log segment,
-  oldest first; `deltas last rs` is what the property demands: `0` first if there is no previous
+  every fuel).  A frame carries the reading of each of the scenario's two time functions (`reading`
+  for function 0, `alt` for function 1); `s.clock` says which one is `loop.time_function` now
+  (a processor may assign it while the loop runs: `PAct.setClock`) and `readingOf s.clock f` is what
+  the loop reads.  `ticks ext` are the readings the loop took in a log segment, `frameDts ext` the
+  deltas of the `World.process(dt)` calls, both oldest first; `fromFrames frames rs` says that `rs`
+  are readings of a prefix of `frames`, one per frame; `deltas last rs` is what the property demands: `0` first if there is no previous
   reading, then differences of consecutive readings; `Idle s` is what holds between the top-level
   operations of any test program (well-formed, not running, no remembered reading).
 
-  Reading domain: `Frame.reading : Int` — ALL integers.  No theorem below assumes that the readings
+  Reading domain: `Frame.reading, Frame.alt : Int` — ALL integers.  No theorem below assumes that the readings
   are small, non-negative or non-decreasing: `C14_dt` and `C14_telescopes` hold for nanosecond
   clocks far above 2^53, for negative readings and for clocks that step backwards (the delta is then
   the negative difference).  The difference is exact integer subtraction; on the implementation
@@ -24,44 +28,55 @@ open Desper Desper.Loop
 -/
 
 /-- The deltas passed to `process` between a `start` and its return are `0, r₁−r₀, r₂−r₁, …` for the
-readings consumed by that start (`s.last = none` holds whenever a start begins: `C14_restart`) —
-whatever the frames do: switches (a frame abandoned by a switch has consumed its reading), callbacks,
-coroutines, and whatever ends the run. -/
+readings `r` the loop took during that start (`s.last = none` holds whenever a start begins:
+`C14_restart`), each `rⱼ` being the reading of the j-th frame from one of the time functions —
+whatever the frames do: switches of every kind (a frame abandoned by a switch has consumed its
+reading), callbacks, coroutines, assignments of `loop.time_function`, and whatever ends the run. -/
 theorem C14_dt (U : Universe) (fuel : Nat) (s s' : St) (frames : List Frame) (o : Outcome)
     (wf : WF s) (h : start U fuel s frames = (s', o)) :
-    ∃ ext k, s'.log = ext ++ s.log ∧ k ≤ frames.length ∧
-      frameDts ext = deltas s.last ((frames.take k).map (·.reading)) ∧
-      (s.current ≠ none → frames ≠ [] → 0 < k) := by
+    ∃ ext, s'.log = ext ++ s.log ∧ fromFrames frames (ticks ext) = true ∧
+      (frames ≠ [] → ticks ext ≠ []) ∧
+      (s.current ≠ none → frameDts ext = deltas s.last (ticks ext)) := by
   unfold start at h
   cases hl : loopRun U fuel { s with running := true } frames with
   | mk s1 o1 =>
     have wf0 : WF { s with running := true } := ⟨wf.fresh, wf.cached, wf.cur⟩
-    obtain ⟨ext, k, h1, h2, h3, h4⟩ := loopRun_dts U fuel _ _ _ _ wf0 hl
+    obtain ⟨ext, h1, h2, h3, h4⟩ := loopRun_dts U fuel _ _ _ _ wf0 hl
     rw [hl] at h
     have : s'.log = s1.log := by
       simp only at h
       split at h <;> simp only [Prod.mk.injEq] at h <;> obtain ⟨rfl, _⟩ := h <;> rfl
-    exact ⟨ext, k, by rw [this]; exact h1, h2, h3, h4⟩
+    exact ⟨ext, by rw [this]; exact h1, h2, h3, h4⟩
 
-example : (start Ex.U 10 Ex.s0 [⟨8, []⟩, ⟨10, [.none, .switch 1 false true]⟩, ⟨15, []⟩,
-      ⟨15, [.raiseQuit]⟩]).2 = .ok ∧
-    frameDts (start Ex.U 10 Ex.s0 [⟨8, []⟩, ⟨10, [.none, .switch 1 false true]⟩, ⟨15, []⟩,
-      ⟨15, [.raiseQuit]⟩]).1.log = [0, 2, 5, 0] := by decide
+example : (start Ex.U 10 Ex.s0 [⟨8, 8, []⟩, ⟨10, 10, [.user .none, .user (.switch 1 false true)]⟩,
+      ⟨15, 15, []⟩, ⟨15, 15, [.user .raiseQuit]⟩]).2 = .ok ∧
+    frameDts (start Ex.U 10 Ex.s0 [⟨8, 8, []⟩,
+      ⟨10, 10, [.user .none, .user (.switch 1 false true)]⟩, ⟨15, 15, []⟩,
+      ⟨15, 15, [.user .raiseQuit]⟩]).1.log = [0, 2, 5, 0] := by decide
 
-example : frameDts (start Ex.U 10 Ex.s0 [⟨1700000000123456789, []⟩, ⟨1700000000140123456, []⟩,
-      ⟨1700000000140123457, []⟩, ⟨-5, []⟩, ⟨9007199254740993, [.raiseQuit]⟩]).1.log
+example : frameDts (start Ex.U 10 Ex.s0 [⟨1700000000123456789, 0, []⟩,
+      ⟨1700000000140123456, 0, []⟩, ⟨1700000000140123457, 0, []⟩, ⟨-5, 0, []⟩,
+      ⟨9007199254740993, 0, [.user .raiseQuit]⟩]).1.log
     = [0, 16666667, 1, -1700000000140123462, 9007199254740998] := by decide
 
-/-- No elapsed time is lost or counted twice (for every integer reading sequence, see the header): the deltas of a start add up to the difference between
-the last and the first reading it consumed. -/
+-- a direct `loop.switch` in the second frame and a new time function in the third: the deltas follow
+-- the readings actually taken (8, 10, 15 from function 0, then 103 from function 1)
+example : frameDts (start Ex.U 10 Ex.s0 [⟨8, 100, []⟩, ⟨10, 101, [.loopSwitch 1 false false]⟩,
+      ⟨15, 102, [.setClock 1]⟩, ⟨20, 103, [.user .raiseQuit]⟩]).1.log = [0, 2, 5, 88] ∧
+    ticks (start Ex.U 10 Ex.s0 [⟨8, 100, []⟩, ⟨10, 101, [.loopSwitch 1 false false]⟩,
+      ⟨15, 102, [.setClock 1]⟩, ⟨20, 103, [.user .raiseQuit]⟩]).1.log = [8, 10, 15, 103] := by
+  decide
+
+/-- No elapsed time is lost or counted twice (for every integer reading sequence, see the header):
+the deltas of a start add up to the difference between the last and the first reading it took. -/
 theorem C14_telescopes (U : Universe) (fuel : Nat) (s s' : St) (frames : List Frame) (o : Outcome)
-    (wf : WF s) (hlast : s.last = none) (h : start U fuel s frames = (s', o)) :
-    ∃ ext k, s'.log = ext ++ s.log ∧ k ≤ frames.length ∧
-      ∀ r0 rest, (frames.take k).map (·.reading) = r0 :: rest →
-        (frameDts ext).sum = lastReading r0 rest - r0 := by
-  obtain ⟨ext, k, h1, h2, h3, _⟩ := C14_dt U fuel s s' frames o wf h
-  refine ⟨ext, k, h1, h2, fun r0 rest hr => ?_⟩
-  rw [h3, hlast, hr, deltas_sum_none]
+    (wf : WF s) (hlast : s.last = none) (hcur : s.current ≠ none)
+    (h : start U fuel s frames = (s', o)) :
+    ∃ ext, s'.log = ext ++ s.log ∧
+      ∀ r0 rest, ticks ext = r0 :: rest → (frameDts ext).sum = lastReading r0 rest - r0 := by
+  obtain ⟨ext, h1, _, _, h4⟩ := C14_dt U fuel s s' frames o wf h
+  refine ⟨ext, h1, fun r0 rest hr => ?_⟩
+  rw [h4 hcur, hlast, hr, deltas_sum_none]
 
 example : lastReading 8 [10, 15, 15] - 8 = ([0, 2, 5, 0] : List Int).sum := by decide
 
@@ -69,49 +84,98 @@ example : lastReading 1700000000123456789 [1700000000140123456, -5, 900719925474
       - 1700000000123456789
     = ([0, 16666667, -1700000000140123461, 9007199254740998] : List Int).sum := by decide
 
-/-- One iteration reads the clock once, remembers the reading whatever happens later in the frame,
-and calls `process` of the current world exactly once, with `dt = 0` if no reading is remembered
-and the difference to the remembered reading otherwise; every processor of that world that is
-called gets this same `dt`, processors are called in order, each at most once
-(`procIdx ext1 = [0, …, m-1]`); what follows (`ext2`) is the service of a switch request and
-contains no `process` call. -/
+/-- One iteration reads the time function that is installed NOW (`tick (readingOf s.clock f)`),
+remembers the reading whatever happens later in the frame, and calls `process` of the world that is
+current NOW exactly once, with `dt = 0` if no reading is remembered and the difference to the
+remembered reading otherwise; every processor of that world that is called gets this same `dt`,
+processors are called in order, each at most once (`procIdx ext1 = [0, …, m-1]`; `ext1` may also
+hold what a direct `loop.switch` call logs); what follows (`ext2`) is the service of a switch request
+and contains no `process` call and no clock reading. -/
 theorem C14_once_per_iteration (U : Universe) (fuel : Nat) (s s' : St) (f : Frame) (o : Outcome)
     (wf : WF s) (h : loopStep U fuel s f = (s', o)) :
-    s'.last = some f.reading ∧
-    ((s.current = none ∧ s'.log = s.log ∧ o = .raised .attributeError) ∨
+    s'.last = some (readingOf s.clock f) ∧
+    ((s.current = none ∧ s'.log = .tick (readingOf s.clock f) :: s.log ∧
+        o = .raised .attributeError) ∨
      ∃ i ext1 ext2 m, s.current = some i ∧
-       s'.log = ext2 ++ ext1 ++ .frame i (dtOf s.last f.reading) :: s.log ∧
-       (∀ e ∈ ext1, PrP i (dtOf s.last f.reading) e) ∧ procIdx ext1 = List.range m ∧
+       s'.log = ext2 ++ ext1 ++ .frame i (dtOf s.last (readingOf s.clock f)) ::
+         .tick (readingOf s.clock f) :: s.log ∧
+       (∀ e ∈ ext1, PsP i (dtOf s.last (readingOf s.clock f)) e) ∧ procIdx ext1 = List.range m ∧
        m ≤ (U.procs i.h).length ∧ (∀ e ∈ ext2, SwP e) ∧
-       frameDts (ext2 ++ ext1 ++ [.frame i (dtOf s.last f.reading)]) = [dtOf s.last f.reading]) := by
+       frameDts (ext2 ++ ext1 ++ [.frame i (dtOf s.last (readingOf s.clock f)),
+         .tick (readingOf s.clock f)]) = [dtOf s.last (readingOf s.clock f)] ∧
+       ticks (ext2 ++ ext1 ++ [.frame i (dtOf s.last (readingOf s.clock f)),
+         .tick (readingOf s.clock f)]) = [readingOf s.clock f]) := by
   obtain ⟨h1, h2⟩ := loopStep_trace U fuel wf h
   refine ⟨h1, ?_⟩
-  rcases h2 with h2 | ⟨i, ext1, ext2, m, a, b, c, d, e, g⟩
+  rcases h2 with h2 | ⟨i, ext1, ext2, m, a, b, c, d, e, g, _⟩
   · exact Or.inl h2
-  · exact Or.inr ⟨i, ext1, ext2, m, a, b, c, d, e, g, frameDts_step c g⟩
+  · obtain ⟨x, y⟩ := frameDts_step (r := readingOf s.clock f) c g
+    exact Or.inr ⟨i, ext1, ext2, m, a, b, c, d, e, g, x, y⟩
 
-example : (loopStep Ex.U 10 Ex.s0 ⟨8, []⟩).1.log
-    = .proc ⟨0, 1⟩ 1 0 :: .proc ⟨0, 1⟩ 0 0 :: .frame ⟨0, 1⟩ 0 :: Ex.s0.log := by decide
+example : (loopStep Ex.U 10 Ex.s0 ⟨8, 8, []⟩).1.log
+    = .proc ⟨0, 1⟩ 1 0 :: .proc ⟨0, 1⟩ 0 0 :: .frame ⟨0, 1⟩ 0 :: .tick 8 :: Ex.s0.log := by decide
+
+/-- The loop's public attributes used from inside a frame without raising: after a processor
+assigned `loop.time_function` the very next iteration reads the new function; after a processor
+called `loop.switch(h, cc, cn)` directly (and the callbacks released on entry returned normally)
+the very next iteration processes the world that call made current (see also `C13_direct_switch`),
+with the delta still measured from the reading of the frame in which the call happened. -/
+theorem C14_current_world_and_clock (U : Universe) (fuel : Nat) (s s1 : St) (a : PAct)
+    (wf : WF s) (hp : pact U fuel s a = (s1, .ok)) (f' : Frame) :
+    (∀ k, a = .setClock k →
+      (loopStep U fuel s1 f').1.last = some (if k = 0 then f'.reading else f'.alt)) ∧
+    (∀ h cc cn, a = .loopSwitch h cc cn → ∃ n ext', s1.current = some ⟨h, n⟩ ∧
+      s1.cache h = some n ∧ s1.last = s.last ∧
+      (loopStep U fuel s1 f').1.log = ext' ++ .frame ⟨h, n⟩ (dtOf s.last (readingOf s1.clock f')) ::
+        .tick (readingOf s1.clock f') :: s1.log) := by
+  refine ⟨?_, ?_⟩
+  · intro k hk
+    subst hk
+    simp only [pact, Prod.mk.injEq, and_true] at hp
+    subst hp
+    cases hl : loopStep U fuel { s with clock := k } f' with
+    | mk s3 o3 =>
+      have := (loopStep_trace U fuel (s := { s with clock := k }) ⟨wf.fresh, wf.cached, wf.cur⟩ hl).1
+      simpa [readingOf] using this
+  · intro h cc cn ha
+    subst ha
+    have hp' := hp
+    simp only [pact] at hp'
+    obtain ⟨wf1, _, sc1, _⟩ := simpleSwitch_spec U fuel wf hp'
+    obtain ⟨_, n, hcache, hcur⟩ := simpleSwitch_ok U fuel wf hp'
+    cases hl : loopStep U fuel s1 f' with
+    | mk s3 o3 =>
+      obtain ⟨_, htr⟩ := loopStep_trace U fuel wf1 hl
+      rcases htr with ⟨hn, _⟩ | ⟨j, ext1, ext2, m, hj, hlog, _⟩
+      · rw [hcur] at hn; cases hn
+      · rw [hcur] at hj; cases hj
+        exact ⟨n, ext2 ++ ext1, hcur, hcache, sc1.last, by simp [hlog, sc1.last]⟩
+
+example : (pact Ex.U 10 Ex.s0 (.setClock 1)).2 = .ok ∧
+    (pact Ex.U 10 Ex.s0 (.loopSwitch 1 true false)).2 = .ok := by decide
 
 /-- `Quit` raised anywhere in a frame — by any processor, callback or coroutine step of any frame —
-ends the frame and the run at once with the loop's current world and handle as they were when the
-frame began, and makes `start` return normally with `running = false` (and no remembered reading).
+ends the frame and the run at once and makes `start` return normally with `running = false` (and no
+remembered reading); the loop's current world and handle are what they were when the frame began
+(unless a processor of this very frame called `loop.switch` directly before: then they are what
+that call made them — `hns` excludes it here).
 `quit_loop()` first delivers on_quit to the current world, `quit_loop(h())` to the given world (held
 if that world is muted), before raising. -/
 theorem C14_quit (U : Universe) (fuel : Nat) (s s1 : St) (f : Frame) (fs : List Frame) (i : Inst)
     (wf : WF s) (hcur : s.current = some i)
-    (hp : processWorld U fuel { s with running := true, last := some f.reading } i
-      (dtOf s.last f.reading) f.acts = (s1, .raised .quit)) :
+    (hp : processWorld U fuel (tickSt { s with running := true } (readingOf s.clock f)) i
+      (dtOf s.last (readingOf s.clock f)) f.acts = (s1, .raised .quit)) :
     start U fuel s (f :: fs) = ({ s1 with running := false, last := none }, .ok) ∧
-    s1.current = s.current ∧ s1.currentHandle = s.currentHandle ∧
+    ((∀ a ∈ f.acts, a.noSwitch = true) →
+      s1.current = s.current ∧ s1.currentHandle = s.currentHandle) ∧
     (∀ t w, t.current = some i → t.worlds i = some w → w.enabled = true →
       U.react t.delivered = .none →
       act U (fuel + 2) t .quit = (logEv t i .quit .unit, .raised .quit)) ∧
     (∀ t h n w, t.cache h = some n → t.worlds ⟨h, n⟩ = some w → w.enabled = false →
       act U (fuel + 2) t (.quitTo h)
         = (setWorld t ⟨h, n⟩ { w with queue := w.queue ++ [(.quit, .unit)] }, .raised .quit)) := by
-  have wf0 : WF { s with running := true, last := some f.reading } := ⟨wf.fresh, wf.cached, wf.cur⟩
-  obtain ⟨_, e1⟩ := processWorld_spec U fuel wf0 hp
+  have wf0 : WF (tickSt { s with running := true } (readingOf s.clock f)) :=
+    ⟨wf.fresh, wf.cached, wf.cur⟩
   have hstep : loopStep U fuel { s with running := true } f = (s1, .raised .quit) := by
     unfold loopStep
     simp only
@@ -122,7 +186,10 @@ theorem C14_quit (U : Universe) (fuel : Nat) (s s1 : St) (f : Frame) (fs : List 
     · rename_i j hj
       have hj' : s.current = some j := hj
       rw [hcur] at hj'; cases hj'; rw [hp]
-  refine ⟨by simp [start, loopRun, hstep], e1.current, e1.currentHandle, ?_, ?_⟩
+  refine ⟨by simp [start, loopRun, hstep], ?_, ?_, ?_⟩
+  · intro hns
+    obtain ⟨_, e1⟩ := processWorld_spec U fuel wf0 hns hp
+    exact ⟨e1.current, e1.currentHandle⟩
   · intro t w ht hw hen hr
     rw [act]
     simp only [ht, quitWith]
@@ -132,8 +199,8 @@ theorem C14_quit (U : Universe) (fuel : Nat) (s s1 : St) (f : Frame) (fs : List 
     simp only [callHandle, hc, quitWith]
     rw [dispatchWith_muted U _ _ _ hw hen]
 
-example : (processWorld Ex.U 10 { Ex.s0 with running := true, last := some 8 } ⟨0, 1⟩
-    (dtOf Ex.s0.last 8) [.none, .quit]).2 = .raised .quit := by decide
+example : (processWorld Ex.U 10 (tickSt { Ex.s0 with running := true } 8) ⟨0, 1⟩
+    (dtOf Ex.s0.last 8) [.user .none, .user .quit]).2 = .raised .quit := by decide
 
 /-- Any exception other than `Quit` (and other than a `SwitchWorld` the loop serves) raised in a frame
 propagates out of `start` unchanged — and `start` still leaves `running = false` and no remembered
@@ -144,8 +211,8 @@ theorem C14_other_propagates (U : Universe) (fuel : Nat) (s s1 : St) (frames : L
     start U fuel s frames = ({ s1 with running := false, last := none }, o) ∧
     (∀ (t t1 : St) (f : Frame) (i : Inst) (e : Exc), t.current = some i →
       (∀ h cc cn, e ≠ .switch h cc cn) →
-      processWorld U fuel { t with last := some f.reading } i (dtOf t.last f.reading) f.acts
-        = (t1, .raised e) →
+      processWorld U fuel (tickSt t (readingOf t.clock f)) i (dtOf t.last (readingOf t.clock f))
+        f.acts = (t1, .raised e) →
       loopStep U fuel t f = (t1, .raised e)) := by
   refine ⟨?_, ?_⟩
   · cases o with
@@ -165,8 +232,8 @@ theorem C14_other_propagates (U : Universe) (fuel : Nat) (s s1 : St) (frames : L
       | switch h cc cn => exact absurd rfl (hne h cc cn)
       | _ => rfl
 
-example : (loopRun Ex.U 10 { Ex.s0 with running := true } [⟨8, []⟩, ⟨9, [.raiseOther]⟩]).2
-    = .raised .other := by decide
+example : (loopRun Ex.U 10 { Ex.s0 with running := true } [⟨8, 8, []⟩,
+    ⟨9, 9, [.user .raiseOther]⟩]).2 = .raised .other := by decide
 
 /-- Restarts: between the top-level operations of any test program (any sequence of `handle()`,
 `loop.switch(...)` and `start()` calls, however each start ended — Quit, a propagated exception, an
@@ -181,18 +248,16 @@ theorem C14_restart (U : Universe) (fuel : Nat) (ops : List Op) (frames : List F
   refine ⟨hi, fun hc hf => ?_⟩
   cases hs : start U fuel (run U fuel {} ops) frames with
   | mk s' o =>
-    obtain ⟨ext, k, h1, _, h3, h4⟩ := C14_dt U fuel _ _ _ _ hi.wf hs
-    have hk := h4 hc hf
-    cases frames with
-    | nil => exact absurd rfl hf
-    | cons f fs =>
-      cases k with
-      | zero => cases hk
-      | succ k =>
-        refine ⟨ext, deltas (some f.reading) ((fs.take k).map (·.reading)), h1, ?_⟩
-        rw [h3, hi.last]
-        simp [deltas, dtOf]
+    obtain ⟨ext, h1, _, h3, h4⟩ := C14_dt U fuel _ _ _ _ hi.wf hs
+    have hk := h3 hf
+    cases ht : ticks ext with
+    | nil => exact absurd ht hk
+    | cons r rs =>
+      refine ⟨ext, deltas (some r) rs, h1, ?_⟩
+      rw [h4 hc, hi.last, ht]
+      simp [deltas, dtOf]
 
 example : frameDts (run Ex.U 10 {} [.switch 0 false false,
-      .start [⟨3, []⟩, ⟨5, [.none, .raiseOther]⟩], .start [⟨9, []⟩, ⟨10, [.raiseQuit]⟩]]).log
+      .start [⟨3, 3, []⟩, ⟨5, 5, [.user .none, .user .raiseOther]⟩],
+      .start [⟨9, 9, []⟩, ⟨10, 10, [.user .raiseQuit]⟩]]).log
     = [0, 2, 0, 1] := by decide
